@@ -50,7 +50,7 @@ def compare(res, tag, cases, impl, model, sample_every):
         for c, i, m in zip(fc, fi, fm):
             n += 1
             c = c.rstrip("\n")
-            ist, ior, ifl = i.rstrip("\n").split("|")
+            ist, ior, ifl, iraw = i.rstrip("\n").split("|")
             mst, msp, wf = m.rstrip("\n").split("|")
             doc, es = parse_case(c)
             res.count_case(c, nontrivial(doc, es))
@@ -67,6 +67,20 @@ def compare(res, tag, cases, impl, model, sample_every):
                 bad = "server text differs from the extracted Coq specification spec_edits"
             elif "E" in ifl:
                 bad = "Contents::end() differs from the end of the reference text"
+            else:
+                # the client's own raw text (theorem C10_raw_history): as long as no CR/LF fusion corner has
+                # occurred, the server's text is the normalisation of the client's raw text
+                fi = flat(ist).split(";")
+                ri = iraw.split(";")
+                for k in range(min(len(fi), len(ri))):
+                    if ri[k] == "-":
+                        res.coverage["raw_client_fusion_corner_cases"] = res.coverage.get("raw_client_fusion_corner_cases", 0) + 1
+                        break
+                    if ri[k] != fi[k]:
+                        bad = "server text differs from the normalisation of the client's own raw text (no CR/LF fusion involved)"
+                        break
+                else:
+                    res.coverage["raw_client_cases_compared"] = res.coverage.get("raw_client_cases_compared", 0) + 1
             if bad:
                 nviol += 1
                 if nviol <= 10:
